@@ -89,6 +89,19 @@ def cases(thorough):
                 for dt in (dts if thorough else ["f8", "f4", "i8"]):
                     for sh in ["3", "2x3"]:
                         yield {"block": "nary", "fn": name, "kind": kind, "u1": u1, "u2": u2, "dt": dt, "shape": sh}
+    # sequences of calls on persistent Arrays: conversions, out= targets and in-place updates interleaved
+    import itertools
+
+    STEPS = ["np.add(a,r)", "np.maximum(a,r)", "np.concatenate([a,r])", "np.less(a,r)", "np.multiply(r,q,out=r)", "r*=q", "np.sqrt(r,out=r)",
+             "np.add(r,r,out=r)", "np.cumsum(a,out=r)", "np.multiply(r,2.0,out=r)"]
+    for (u1, u2) in [("m", "km"), ("cm", "m"), ("g", "M_sun")]:
+        for seq in itertools.product(STEPS, repeat=3):
+            nmut = sum(1 for x in seq[:2] if "out=" in x or "*=" in x)
+            if nmut == 0 or "out=" in seq[2] or "*=" in seq[2]:
+                continue
+            if not thorough and u1 == "g" and nmut == 2:
+                continue
+            yield {"block": "seq", "u1": u1, "u2": u2, "steps": list(seq), "dt": "f8", "shape": "3"}
     # out= forms and where/clip with unit-carrying bounds and boolean Array conditions
     for name in ("add_out", "multiply_out", "sqrt_out", "negative_out", "where_Array_cond", "clip_Arrays", "clip_numbers", "clip_kw"):
         for (u1, u2) in UNIT_SETS:
@@ -240,6 +253,8 @@ def run_case(acc, idx, c):
                 wd = tuple(q + sgn * p for p, q in zip(d1, dY))
             out = finish(acc, idx, c, lambda: fn(np, x, y), want, wd, tol + 1e-12, False, kind == "Quantity_first", (dt,), f"transform:{name}:{label_kind}")
         return out, True
+    if c["block"] == "seq":
+        return run_sequence(acc, idx, c), True
     # ---- special forms
     name = c["fn"]
     v1 = _arr.values_for(shape, dt, 0, 0)
@@ -291,6 +306,61 @@ def run_case(acc, idx, c):
         want = np.clip(v1.astype(float), 2, 4) * s1
         return finish(acc, idx, c, lambda: np.clip(a, a_min=2, a_max=4), want, d1, tol, False, True, (dt,), "same-unit:clip:kw"), c["u1"] != "dimensionless"
     raise KeyError(name)
+
+
+def run_sequence(acc, idx, c):
+    """a (u1) and r (u2) persist; observing steps are checked against M2 on the operands' current state."""
+    import osyris
+
+    a = osyris.Array(np.array([1.0, 2.0, 4.0]), unit=c["u1"])
+    r = osyris.Array(np.array([8.0, 16.0, 32.0]), unit=c["u2"])
+    q = osyris.Array(np.array([2.0, 2.0, 2.0]), unit=c["u2"])
+    out = "ok"
+    for k, st in enumerate(c["steps"]):
+        PA, dA, tA = _arr.phys(a)
+        PR, dR, tR = _arr.phys(r)
+        PQ, dQ, tQ = _arr.phys(q)
+        compatible = tuple(dA) == tuple(dR)
+        tol = 1e-12 + tA + tR + tQ
+        lab = f"sequence:{st.split('(')[0]}:{'first-step' if k == 0 else 'after-earlier-steps'}"
+        with np.errstate(all="ignore"):
+            if st == "np.add(a,r)":
+                o = finish(acc, idx, c, lambda: np.add(a, r), PA + PR, dA, tol, not compatible, True, (np.float64,), lab)
+            elif st == "np.maximum(a,r)":
+                o = finish(acc, idx, c, lambda: np.maximum(a, r), np.maximum(PA, PR), dA, tol, not compatible, True, (np.float64,), lab)
+            elif st == "np.concatenate([a,r])":
+                o = finish(acc, idx, c, lambda: np.concatenate([a, r]), np.concatenate([PA, PR]), dA, tol, not compatible, True, (np.float64,), lab)
+            elif st == "np.less(a,r)":
+                want = None if np.any(np.isclose(PA, PR, rtol=1e-6)) else np.less(PA, PR).astype(float)
+                o = finish(acc, idx, c, lambda: np.less(a, r), want, M2.dims_of(), 0.0, not compatible, True, (np.float64,), lab)
+            elif st == "np.multiply(r,q,out=r)":
+                o = finish(acc, idx, c, lambda: np.multiply(r, q, out=r), PR * PQ, tuple(x + y for x, y in zip(dR, dQ)), tol, False, False, (np.float64,), lab)
+            elif st == "r*=q":
+                def f():
+                    nonlocal r
+                    r *= q
+                    return r
+                o = finish(acc, idx, c, f, PR * PQ, tuple(x + y for x, y in zip(dR, dQ)), tol, False, False, (np.float64,), lab)
+            elif st == "np.sqrt(r,out=r)":
+                from fractions import Fraction as F
+                o = finish(acc, idx, c, lambda: np.sqrt(r, out=r), np.sqrt(PR), tuple(x * F(1, 2) for x in dR), tol, False, False, (np.float64,), lab)
+            elif st == "np.add(r,r,out=r)":
+                o = finish(acc, idx, c, lambda: np.add(r, r, out=r), PR + PR, dR, tol, False, False, (np.float64,), lab)
+            elif st == "np.multiply(r,2.0,out=r)":
+                o = finish(acc, idx, c, lambda: np.multiply(r, 2.0, out=r), PR * 2.0, dR, tol, False, False, (np.float64,), lab)
+            elif st == "np.cumsum(a,out=r)":
+                # the statement does not say which unit an array function gives its out= argument: values only
+                try:
+                    np.cumsum(a, out=r)
+                    o = "ok"
+                except Exception:
+                    o = "raises"
+            else:
+                raise KeyError(st)
+        if o not in ("ok", "raises"):
+            out = o
+            break
+    return out
 
 
 def work(payload):
